@@ -6,7 +6,7 @@ import ast
 
 from ..astutil import CondUnknown, eval_cond, inside
 from ..cfg import CFG, cond_strings
-from ..core import AnalysisError, const_value
+from ..core import AnalysisError, const_value, walk_own
 from ..defuse import DefUse, Terms, show, walk_term
 from ..defuse import key as tkey
 from ..tutil import no_uids
@@ -492,8 +492,9 @@ def header_data_agreement(ctx, rule_id):
     # how write_to_disk derives the data order from the level-file columns
     w = prog.func("mokapot.confidence.Confidence.write_to_disk")
     Tw = Terms(DefUse(prog, w))
-    wc = [n for n in ast.walk(w.node) if isinstance(n, ast.Call)
-          and ast.unparse(n.func) == "write_confidences"]
+    wc = [n for n in walk_own(w.node) if isinstance(n, ast.Call)
+          and prog.resolve_call(w, w.module, n)[1] == [
+              "mokapot.confidence_writer.write_confidences"]]
     ctx.require(len(wc) == 1, f"{w.qual}: write_confidences call not found")
     wcf = prog.func("mokapot.confidence_writer.write_confidences")
     out = Tw.of(prog.bind(wcf, wc[0])["out_columns"])
@@ -854,17 +855,20 @@ def _target_decoy_routing(ctx):
     ctx.check(ok_w, "C03d-writers-in-path-order", f,
               "writer i is created for out_paths[i] and receives block i",
               f"writers are {show(wt, 160)}", node=wz0[0])
-    pops = [n for n in ast.walk(f.node) if isinstance(n, ast.Call)
-            and isinstance(n.func, ast.Attribute) and n.func.attr == "pop"
-            and Tn.of(n.func.value)[:2] in (("param", "out_paths"),
-                                            ("var", "out_paths"))]
-    ok_p = len(pops) == 1 and len(pops[0].args) == 1 and const_value(
-        pops[0].args[0]) == 1 and "not decoys" in cfg.conditions(
-            cfg.stmt_of(pops[0]))
+    from ..events import container_events
+    pev = [e for e in container_events(f.node, T, cfg)
+           if root_name(e.recv) == "out_paths"
+           and e.kind in ("pop", "del", "remove", "clear", "store", "aug",
+                          "insert", "append", "extend")]
+    pops = [cfg.stmt_of(e.node) for e in pev]
+    ok_p = len(pev) == 1 and (
+        (pev[0].kind == "pop" and pev[0].args == (("const", 1),))
+        or (pev[0].kind == "del" and pev[0].key == ("const", 1))) and \
+        "not decoys" in cfg.conditions(pev[0].stmt)
     ctx.check(ok_p, "C03d-decoy-path-dropped", f,
               "without decoys only the decoy path (position 1) is dropped",
-              f"pops: {[ast.unparse(p) for p in pops]} under "
-              f"{[cfg.conditions(cfg.stmt_of(p)) for p in pops]}",
+              f"changes of out_paths: {[ast.unparse(p)[:60] for p in pops]} "
+              f"under {[cfg.conditions(p) for p in pops]}",
               node=f.node)
     # assign_confidence: position 0 = targets path, 1 = decoys path
     g = prog.func(AC)
@@ -1016,19 +1020,33 @@ def _retained_rows(ctx):
     f = prog.func("mokapot.confidence.LinearConfidence._assign_confidence")
     du = DefUse(prog, f)
     T = Terms(du)
-    loops = [n for n in ast.walk(f.node) if isinstance(n, ast.For)
-             and "level_paths" in ast.unparse(n.iter)]
+    LP = ("param", "level_paths")
+    loops = []
+    for n in walk_own(f.node):
+        if isinstance(n, ast.For):
+            it = T.of(n.iter)
+            if it[0] == "call" and it[1] == "builtins.zip" and LP in it[2]:
+                loops.append(n)
     ctx.require(len(loops) == 1, f"{f.qual}: level loop not found")
     lp = loops[0]
-    reads = [n for n in ast.walk(lp) if isinstance(n, ast.Call)
-             and isinstance(n.func, ast.Attribute) and n.func.attr == "read"
-             and "from_path" in ast.unparse(n.func.value)]
-    wtd = [n for n in ast.walk(lp) if isinstance(n, ast.Call)
-           and ast.unparse(n.func) == "self.write_to_disk"]
+    from ..proto import Calls
+    cl = Calls(prog, f, du=du, T=T)
+    reads = [(t, n) for t, n in cl.mcalls("read") if inside(n, lp)
+             and t[1][0] == "call" and t[1][1] ==
+             "mokapot.tabular_data.TabularDataReader.from_path"
+             and t[1][2]]
+    wtd = [(t, n) for t, n in cl.mcalls("write_to_disk", ("param", "self"))
+           if inside(n, lp)]
     ctx.require(len(reads) == 1 and len(wtd) == 1,
                 f"{f.qual}: read/write_to_disk idiom not recognised")
-    rp = T.of(reads[0].func.value.args[0])
-    wp = T.of(wtd[0].args[0])
+    rp = reads[0][0][1][2][0]
+    wfun = prog.func("mokapot.confidence.Confidence.write_to_disk")
+    wb = prog.bind(wfun, wtd[0][1])
+    wparams = [p_ for p_ in wfun.params if p_ != "self"]
+    ctx.require(wparams and wparams[0] in wb,
+                f"{f.qual}: data path of write_to_disk not bound")
+    wp = T.of(wb[wparams[0]])
+    wtd = [wtd[0][1]]
     ctx.check(rp == wp and rp[0] == "zipelem", "C03e-same-level-file", f,
               "q-values are computed from the level file that "
               "write_to_disk re-reads",
@@ -1059,16 +1077,28 @@ def _retained_rows(ctx):
               node=lp)
     qv = [v for (r, a, v, st) in du.attr_stores if r == "self"
           and a == "qvals"]
-    ok_q = len(qv) == 1 and isinstance(qv[0], ast.Call) and [
-        ast.unparse(a) for a in qv[0].args[:2]] == ["self.scores",
-                                                    "self.targets"]
+    SELF_ = ("param", "self")
+    ok_q = False
+    if len(qv) == 1:
+        qt = T.of(qv[0])
+        qb = (bound_args(prog, qt) or {}) if qt[0] == "call" else {}
+        vals = list(qb.values()) if qb else (
+            list(qt[2]) if qt[0] == "call" else [])
+        st_t = {}
+        for (r, a, v, st) in du.attr_stores:
+            if r == "self" and a in ("scores", "targets"):
+                st_t.setdefault(a, []).append(T.of(v))
+        ok_q = len(vals) >= 2 and vals[0] in [
+            ("attr", SELF_, "scores")] + st_t.get("scores", []) and \
+            vals[1] in [("attr", SELF_, "targets")] + st_t.get("targets", [])
     ctx.check(ok_q, "C03e-qvalues-on-retained-rows", f,
               "q-values are computed from exactly these scores and flags",
               f"qvals = {[ast.unparse(v)[:80] for v in qv]}", node=lp)
     # write_to_disk zips the file chunks with qvals / peps / targets chunks
     w = prog.func("mokapot.confidence.Confidence.write_to_disk")
-    wc = [n for n in ast.walk(w.node) if isinstance(n, ast.Call)
-          and ast.unparse(n.func) == "write_confidences"]
+    wc = [n for n in walk_own(w.node) if isinstance(n, ast.Call)
+          and prog.resolve_call(w, w.module, n)[1] == [
+              "mokapot.confidence_writer.write_confidences"]]
     ctx.require(len(wc) == 1, f"{w.qual}: write_confidences call not found")
     wcf = prog.func("mokapot.confidence_writer.write_confidences")
     b = prog.bind(wcf, wc[0])
@@ -1110,9 +1140,11 @@ def _retained_rows(ctx):
                        ("target_iterator", "targets")))
     sizes = {cs[1] for cs in got.values() if cs}
     di = Tw.of(b["data_iterator"]) if "data_iterator" in b else None
+    from ..tutil import bound_margs
+    dsz = (bound_margs(prog, di) or {}).get("chunk_size") \
+        if di is not None else None
     ok_size = len(sizes) == 1 and di is not None and di[0] == "mcall" and \
-        di[2] == "get_chunked_data_iterator" and di[3] and \
-        di[3][0] in sizes
+        di[2] == "get_chunked_data_iterator" and dsz in sizes
     ctx.check(ok_b and ok_size, "C03e-columns-attached", w,
               "q-values, PEPs and target flags are chunked like the level "
               "file and each is bound to its own formal of "
